@@ -16,8 +16,25 @@ def VDList.ofList : List VD → VDList
 def VDAlts.ofList : List VDList → VDAlts
   | [] => .nil | v :: vs => .cons v (VDAlts.ofList vs)
 
+/-- `(mx k g)`: site `k` of the harness's table of `view!`-macro pieces over signal `g`, read as the builder-made view it
+is equivalent to (`mx_equiv` in harness/common/vd.rs) -/
+def mxEquiv (k g : Nat) : VD :=
+  let s (x : String) : Str := x.toList.map Char.toNat
+  let dstr : VD := .dynView g (VDAlts.ofList [VDList.ofList [.text (s "even")], VDList.ofList [.text (s "odd")]])
+  -- a `String` value interpolated by the macro: an ordinary dynamic region over the eight texts `dynTextStr (v % 8)`
+  let dtxt : VD := .dynView g (VDAlts.ofList ((List.range 8).map fun i => VDList.ofList [.text (dynTextStr i)]))
+  match k % 7 with
+  | 0 => .el (s "p") [] (VDList.ofList [dstr])
+  | 1 => .el (s "p") [] (VDList.ofList [dtxt])
+  | 2 => .el (s "span") [] (VDList.ofList [dtxt])
+  | 3 => dstr
+  | 4 => .el (s "div") [(s "title", AttrV.dyn g)] .nil
+  | 5 => .el (s "span") [] (VDList.ofList [dstr])
+  | _ => .el (s "div") [(s "hidden", AttrV.dynBool g)] (VDList.ofList [.text (s "x"), dtxt])
+
 mutual
 partial def readVD : Sexp → Option VD
+  | .list [.atom "mx", .atom k, .atom g] => do pure (mxEquiv (← k.toNat?) (← g.toNat?))
   | .list [.atom "el", tag, .list (.atom "A" :: as), .list (.atom "C" :: cs)] => do
     let as ← as.mapM fun
       | .list [n, .list [.atom "s", v]] => do pure ((← readStr n), AttrV.static (← readStr v))
